@@ -183,12 +183,19 @@ func realPayload(sent []*Payload, r PRec) *Payload {
 // scriptStats counts, over all multi-node behaviours of this process, how the closed loop resolved deliveries.
 var scriptStats struct{ Exact, ByKey, Skipped int }
 
+// pendingMsg: a payload a real node has broadcast that the behaviour has not (yet) delivered to node `to`.
+type pendingMsg struct {
+	p  *Payload
+	to int
+}
+
 func playBehaviour(c *Cluster, evs []sEvent, offset int64) []*Line {
 	var lines []*Line
 	var vals []int
 	multi := len(evs) > 0 && evs[0].N != nil
 	sentBy := map[int][]*Payload{} // node id -> everything the real node has broadcast in this run
 	c.Tainted = false
+	c.pending = nil
 	c.Vals = func(h uint32) []int { return vals }
 	for _, e := range evs {
 		c.Clk.Now = e.Env.Now + offset
@@ -203,7 +210,15 @@ func playBehaviour(c *Cluster, evs []sEvent, offset int64) []*Line {
 			}
 			vals = e.Env.Ledger.Vals
 			n = NewNode(id, *e.Cfg, c, c.Clk)
-			n.Broadcast = func(n *Node, p *Payload) { sentBy[n.ID] = append(sentBy[n.ID], p.clone()) }
+			n.Broadcast = func(n *Node, p *Payload) {
+				q := p.clone()
+				sentBy[n.ID] = append(sentBy[n.ID], q)
+				for _, m := range c.Nodes {
+					if m.ID != n.ID {
+						c.pending = append(c.pending, pendingMsg{q, m.ID})
+					}
+				}
+			}
 			n.Height, n.TipHash, n.TipTs = e.Env.Ledger.Height, H(e.Env.Ledger.Tip), e.Env.Ledger.TipTs
 			c.Nodes = append(c.Nodes, n)
 			c.byID[id] = n
@@ -252,6 +267,12 @@ func playBehaviour(c *Cluster, evs []sEvent, offset int64) []*Line {
 					scriptStats.Exact++
 				} else {
 					scriptStats.ByKey++
+				}
+				for i, pm := range c.pending { // this delivery is no longer in flight
+					if pm.p == q && pm.to == id {
+						c.pending = append(c.pending[:i:i], c.pending[i+1:]...)
+						break
+					}
 				}
 				p = q.clone()
 			}
@@ -327,14 +348,28 @@ func runScript(out *TraceWriter, path string, from, runs int, pairDelta int64) {
 		ids, faulty := idsOf(evs)
 		params := map[string]any{"events": len(evs), "n0": evs[0].Env.Ledger.NVals, "myIndex": evs[0].Env.Ledger.MyIndex,
 			"h0": evs[0].Env.Ledger.Height, "tpb": evs[0].Cfg.Tpb, "maxTpb": evs[0].Cfg.MaxTpb, "delayMax": delayMaxOf(evs[0])}
+		keepInFlight := evs[0].Kind == "silent"
 		if evs[0].C09 {
-			params["c09"], params["kind"], params["nsilent"] = true, evs[0].Kind, evs[0].NSilent
+			kind := evs[0].Kind
+			for _, e := range evs {
+				if e.Call == "Restart" { // a validator lost its state: the view bound of C09 speaks about validators silent from the start only
+					kind, keepInFlight = "restart", false
+				}
+			}
+			params["c09"], params["kind"], params["nsilent"], params["freerun"] = true, kind, evs[0].NSilent, true
 			faulty = []int{} // silent validators are not Byzantine: every real node counts for agreement
 		}
 		out.Write(RunStart{Call: "RunStart", Run: run, Seed: 0, Driver: "script", Nodes: ids, Faulty: faulty, Sync: evs[0].Sync, Params: params})
 		playBehaviour(c, evs, 0)
-		if last := evs[len(evs)-1]; (evs[0].Sync || evs[0].C09) && last.Done && !c.Tainted {
-			// the specification says this synchronous run is complete: every live node must have decided up to the target
+		last := evs[len(evs)-1]
+		free := false
+		if evs[0].C09 && len(c.Nodes) == evs[0].Env.Ledger.NVals-evs[0].NSilent {
+			// C09, eventual synchrony: whatever state the behaviour has taken the real cluster to, from now on the network is
+			// synchronous - and every live validator must decide (freeRun). Also for behaviours the real nodes did not follow to the end.
+			free = freeRun(c, evs[0].Target, keepInFlight)
+		}
+		if (evs[0].Sync || evs[0].C09) && ((last.Done && !c.Tainted) || free) {
+			// the specification says this synchronous run is complete (or the run was continued under synchrony): every live node must have decided up to the target
 			end := RunEnd{Call: "RunEnd", Run: run, Now: c.Clk.Now, Target: evs[0].Target, Heights: [][]int{}, Live: []int{}}
 			for _, n := range c.Nodes {
 				hh := n.Height // the ledger follows the blocks the node accepted (the specification's environment drives it call by call)
@@ -353,4 +388,93 @@ func runScript(out *TraceWriter, path string, from, runs int, pairDelta int64) {
 		fmt.Fprintf(os.Stderr, "script: closed loop: %d deliveries identical to the specification's payload, %d replaced by the real node's payload of the same kind, %d skipped (never sent)\n",
 			scriptStats.Exact, scriptStats.ByKey, scriptStats.Skipped)
 	}
+}
+
+// freeRun continues a multi-node run under SYNCHRONY from whatever state the real cluster is in: every payload a node broadcasts
+// reaches every other node before the next timer expires; a timer fires only when nothing is in flight, the earliest first, and
+// the clock jumps to it. Payloads still in flight from the behaviour are delivered first (keep) or are lost (a partition that
+// has just healed / a crash). Ends when every node has accepted the block of the target height, or after 80 block times of
+// virtual time. Returns false if the run cannot be judged (a node not started).
+func freeRun(c *Cluster, target uint32, keep bool) bool {
+	for _, n := range c.Nodes {
+		if !n.started {
+			return false
+		}
+	}
+	var queue []pendingMsg
+	if keep {
+		queue = append(queue, c.pending...)
+	}
+	c.pending = nil
+	for _, n := range c.Nodes {
+		n.Broadcast = func(n *Node, p *Payload) {
+			q := p.clone()
+			for _, m := range c.Nodes {
+				if m.ID != n.ID {
+					queue = append(queue, pendingMsg{q, m.ID})
+				}
+			}
+		}
+	}
+	decided := func(n *Node) bool { return len(n.Accepted[target]) > 0 || n.Height >= target }
+	// "nodes catch up from recovery messages, or from the ledger when the others already finished the height" (C09): once one node
+	// has accepted the block, the application's block synchronisation brings the others to it; what the library owes is that
+	// SOMEBODY decides. (A decided node only answers recovery requests; validators that have committed never send one.)
+	any := func() bool {
+		for _, n := range c.Nodes {
+			if decided(n) {
+				return true
+			}
+		}
+		return false
+	}
+	all := any
+	tpb := c.Nodes[0].Cfg.Tpb
+	limit := c.Clk.Now + 60*tpb
+	nonce := uint64(700)
+	fired := map[int]bool{} // node id -> its armed timer has expired already (cleared by the next Timer.Reset)
+	emit := func(n *Node, l *Line) {
+		c.Emit(l)
+		for _, cb := range l.Cb {
+			if cb.K == "TimerReset" || cb.K == "TimerExtend" {
+				fired[n.ID] = false
+			}
+		}
+	}
+	for steps := 0; !all() && steps < 4000; steps++ {
+		nonce++
+		rand.Reader = &fixedNonce{v: nonce}
+		if len(queue) > 0 {
+			pm := queue[0]
+			queue = queue[1:]
+			n := c.byID[pm.to]
+			emit(n, n.Receive(pm.p.clone()))
+			continue
+		}
+		var next *Node
+		for _, n := range c.Nodes {
+			if !decided(n) && n.Timer.Armed && !fired[n.ID] && (next == nil || n.Timer.Due < next.Timer.Due) {
+				next = n
+			}
+		}
+		if next == nil {
+			break // somebody is undecided and nobody has a timer: a stall
+		}
+		if next.Timer.Due > c.Clk.Now {
+			c.Clk.Now = next.Timer.Due
+		}
+		if c.Clk.Now > limit {
+			break
+		}
+		fired[next.ID] = true
+		emit(next, next.Timeout(next.Timer.H, next.Timer.V))
+	}
+	if any() { // ledger synchronisation
+		for _, n := range c.Nodes {
+			if !decided(n) {
+				n.Height = target
+			}
+		}
+	}
+	return true
 }
